@@ -4,17 +4,19 @@ usage: revalidate_seeded.py [id-prefix ...]   (default: all of /verif/seeded/*)
 For each seeded/<id>/: tools/try_seeded.py <dir> <checks_expected_to_fire> ; writes seeded/STATUS.json
 (id -> demo verdicts, per check: fired / violation line / what) and prints one line per change."""
 import sys, os, json, subprocess, glob
-root = "/verif/seeded"
+VROOT = os.path.dirname(os.path.dirname(os.path.abspath(__file__)))
+root = os.path.join(VROOT, "seeded")
 want = sys.argv[1:]
-status_path = os.path.join(root, "STATUS.json")
+# VERIF_STATUS_OUT: write to another file (parallel shards in several worktrees; merge with tools/merge_status.py)
+status_path = os.environ.get("VERIF_STATUS_OUT", os.path.join(root, "STATUS.json"))
 status = json.load(open(status_path)) if os.path.exists(status_path) else {}
 for d in sorted(glob.glob(root + "/*/")):
     sid = os.path.basename(d.rstrip("/"))
-    if want and not any(sid.startswith(w) for w in want):
+    if want and not any(sid == w or (w.endswith("*") and sid.startswith(w[:-1])) or (len(w) == 3 and sid.startswith(w + "_")) for w in want):
         continue
     meta = json.load(open(os.path.join(d, "meta.json")))
     checks = ",".join(meta.get("checks_expected_to_fire") or [meta["property"]])
-    p = subprocess.run([sys.executable, "/verif/tools/try_seeded.py", d, checks], stdout=subprocess.PIPE, stderr=subprocess.STDOUT)
+    p = subprocess.run([sys.executable, os.path.join(VROOT, "tools", "try_seeded.py"), d, checks], stdout=subprocess.PIPE, stderr=subprocess.STDOUT)
     try:
         r = json.load(open(os.path.join(d, "result.json")))
     except Exception as e:
